@@ -1222,4 +1222,50 @@ theorem C18_legacy_xor_chain_witness :
   decide
 
 
+/-! ## REPEAT with an increment control -/
+
+theorem Body.pyRange_inclusive (f : Nat) (a b s : Int) (hs : s ≠ 0) :
+    Body.pyRange f a (b + (if s > 0 then 1 else -1)) s = Spec.Body.repeatValues f a b s := by
+  induction f generalizing a with
+  | zero => rfl
+  | succ f ih =>
+    simp only [Body.pyRange, Spec.Body.repeatValues]
+    by_cases hp : s > 0
+    · have hn : ¬ s < 0 := by omega
+      simp only [hp, hn, if_true, true_and, false_and, or_false]
+      by_cases h : a > b
+      · have : ¬ a < b + 1 := by omega
+        simp [h, this]
+      · have : a < b + 1 := by omega
+        have ih' := ih (a + s)
+        simp only [hp, if_true] at ih'
+        simp [h, this, ih']
+    · have hn : s < 0 := by omega
+      simp only [hp, hn, if_false, true_and, false_and, false_or]
+      by_cases h : a < b
+      · have : ¬ a > b + -1 := by omega
+        simp [h, this]
+      · have : a > b + -1 := by omega
+        have ih' := ih (a + s)
+        simp only [hp, if_false] at ih'
+        simp [h, this, ih']
+
+/-- **`REPEAT i := a TO b BY s` runs over exactly the values ISO 10303-11 13.9.1 gives the loop variable**: with the stop
+value `LOOPpyout` writes once it is `(b) + (1 if (s) > 0 else -1)` (regenerated `repeatBoundInclusive`, fixes/C18-20),
+Python's `range(a, stop, s)` yields the same values in the same order — for all bounds and every non-zero increment, to
+any length. -/
+theorem C18_repeat_range_inclusive (h : repeatBoundInclusive = true) (f : Nat) (a b s : Int) (hs : s ≠ 0) :
+    Body.pyRange f a (Body.stopWritten b s) s = Spec.Body.repeatValues f a b s := by
+  unfold Body.stopWritten
+  rw [h]
+  exact Body.pyRange_inclusive f a b s hs
+
+/-- With the bound itself as the stop value (`range(a,b,s)`, before fixes/C18-20) the last value is lost:
+`REPEAT i := 1 TO 3` runs over 1, 2 and `REPEAT i := 3 TO 1 BY -1` over 3, 2. -/
+theorem C18_legacy_repeat_range_witness :
+    Body.pyRange 10 1 3 1 = [1, 2] ∧ Spec.Body.repeatValues 10 1 3 1 = [1, 2, 3] ∧
+    Body.pyRange 10 3 1 (-1) = [3, 2] ∧ Spec.Body.repeatValues 10 3 1 (-1) = [3, 2, 1] := by
+  decide
+
+
 end StepModel.GenPy
